@@ -357,6 +357,10 @@ TAPS = {
         "yaml": "TAP001_PC1.yaml",
         "stages": ["DOWNLOAD", "INSTALL", "ACTIVATE", "PROPAGATE", "COMMAND_AND_CONTROL", "PAYLOAD"],
         "prob_stages": ["ACTIVATE", "PROPAGATE", "COMMAND_AND_CONTROL", "PAYLOAD"],
+        # TAP001's code deliberately applies no probability to ACTIVATE ("No Probability on Activate"), although the
+        # settings schema carries one; the property statement does not speak about stage probabilities, so that stage
+        # is not demanded to honour a zero probability here (main session's decision; see DESIGN.md section 8)
+        "zero_stages": ["PROPAGATE", "COMMAND_AND_CONTROL", "PAYLOAD"],
         "actions": {
             "DOWNLOAD": ["node-folder-create", "node-file-create"],
             "INSTALL": ["node-file-access"],
@@ -654,7 +658,7 @@ def tap_prob_zero(sidx: int, rkc: bool, rks: bool, T: int = 12, kind: str = "tap
     agent emits nothing but do-nothing once it has reached it."""
     cls, mods, SC = _tap_modules(kind)
     spec = TAPS[kind]
-    zero = pick(spec["prob_stages"], sidx)
+    zero = pick(spec.get("zero_stages", spec["prob_stages"]), sidx)
     with concrete():
         _quiet()
         st = _tap_settings(kind, 0, n_acc, n_acl)
